@@ -269,4 +269,33 @@ theorem checkDomTree_iff (g : Digraph) (hwf : g.WF) (tree : Nat → Option Nat) 
       rw [hd]
       exact (isIdom_iff g hwf d v hr).mpr hi
 
+/-- the reference computes a dominator tree on every well-formed graph (existence) -/
+theorem isDomTree_idomRef (g : Digraph) (hwf : g.WF) : IsDomTree g (idomRef g) := by
+  intro v hvn
+  refine ⟨idomRef_none g hwf v hvn, ?_⟩
+  intro hne hr
+  obtain ⟨d, hd⟩ := idom_exists hr hne
+  exact ⟨d, (idomRef_correct g hwf v d hr hne).mpr hd, hd⟩
+
+theorem isDomTree_unique {g : Digraph} {t₁ t₂ : Nat → Option Nat}
+    (h1 : IsDomTree g t₁) (h2 : IsDomTree g t₂) (v : Nat) (hv : v < g.n) : t₁ v = t₂ v := by
+  by_cases hc : v = g.entry ∨ ¬ Reach g.Edge g.entry v
+  · rw [(h1 v hv).1 hc, (h2 v hv).1 hc]
+  · have hne : v ≠ g.entry := fun h => hc (Or.inl h)
+    have hr : Reach g.Edge g.entry v := Classical.byContradiction (fun h => hc (Or.inr h))
+    obtain ⟨d1, e1, i1⟩ := (h1 v hv).2 hne hr
+    obtain ⟨d2, e2, i2⟩ := (h2 v hv).2 hne hr
+    rw [e1, e2, idom_unique hr i1 i2]
+
+/-- the checker accepts `t` iff `t` agrees with the reference on every node -/
+theorem checkDomTree_iff_ref (g : Digraph) (hwf : g.WF) (t : Nat → Option Nat) :
+    checkDomTree g t = true ↔ ∀ v, v < g.n → t v = idomRef g v := by
+  rw [checkDomTree_iff g hwf]
+  constructor
+  · intro h v hv; exact isDomTree_unique h (isDomTree_idomRef g hwf) v hv
+  · intro h v hv
+    have := isDomTree_idomRef g hwf v hv
+    rw [← h v hv] at this
+    exact this
+
 end AgVerif.DomRef
